@@ -665,6 +665,15 @@ class NF:
             return ("call", "map", (("opaque", fn), src), ())
         if fs == "len" and len(e.args) == 1:
             return self.mk_len(self.ev(e.args[0], env))
+        if fs == "any" and len(e.args) == 1 and not e.keywords:
+            # any(v == E for v in X)  is  E in X
+            a = self.ev(e.args[0], env)
+            if a[0] == "map" and a[1][0] == "lam" and a[1][2][0] == "op" and a[1][2][1] == "cmp:Eq":
+                var, (l, r) = a[1][1], a[1][2][2]
+                other = r if l == var else (l if r == var else None)
+                if other is not None and not contains(other, var):
+                    return ("op", "cmp:In", (other, a[2]))
+            return ("call", "any", (a,), ())
         if fs == "cast" and len(e.args) == 2:
             return self.ev(e.args[1], env)
         if fs in ("int", "str", "bool", "set", "sorted", "max", "min", "sum", "isinstance", "enumerate", "zip", "range", "repr", "dict"):
